@@ -2066,7 +2066,15 @@ namespace adept {
     template <int ARank>
     typename internal::enable_if<(ARank>1)&&Packet<Type>::is_vectorized,bool>::type
     columns_aligned_() const {
-      return offset_[Rank-2] % Packet<Type>::size == 0;
+      // Every dimension slower than the fastest varying one must step
+      // by a whole number of packets, or rows would start at
+      // different alignments
+      for (int i = 0; i < Rank-1; ++i) {
+	if (offset_[i] % Packet<Type>::size != 0) {
+	  return false;
+	}
+      }
+      return true;
     }
 
   public:
